@@ -103,8 +103,34 @@ def c01(ctx):
     ctx.require("batch_forms")
 
 
+def big_equiv(ctx):
+    """The limb-arithmetic specifications used for exact validation at the real widths (Big, BigAns, BigRange) are tied to the
+    primary specifications: TLC checks exhaustively at small widths, with limbs of 1-3 bits so that every number spans several
+    limbs, that the limb arithmetic agrees with TLC's integers and that every BigAns / BigRange operator agrees with its
+    namesake in Ans.tla / Range.tla in every coder state."""
+    th = ctx.tier == "thorough"
+    runs = [("MC_BigArith", {"LB": 2, "N": 160, "K": 7}, ["Repr", "AddOK", "SubOK", "MulOK", "MulSmallOK", "CmpOK", "ShiftOK", "BitLenOK", "DivOK", "ChunksOK"]),
+            ("MC_BigArith", {"LB": 3, "N": 200 if not th else 700, "K": 8}, ["Repr", "AddOK", "SubOK", "MulOK", "MulSmallOK", "CmpOK", "ShiftOK", "BitLenOK", "DivOK", "ChunksOK"]),
+            ("MC_BigAnsEquiv", {"W": 2, "S": 6, "LB": 1, "MaxBulk": 1, "MaxInit": 4}, ["Queries", "Steps", "Imports"]),
+            ("MC_BigAnsEquiv", {"W": 3, "S": 6, "LB": 2, "MaxBulk": 1, "MaxInit": 3}, ["Queries", "Steps", "Imports"]),
+            ("MC_BigRangeEquiv", {"W": 2, "S": 4, "LB": 1, "MaxData": 3, "MaxSitN": 2}, ["EncQueries", "EncSteps", "DecAll"])]
+    if th:
+        runs += [("MC_BigArith", {"LB": 1, "N": 300, "K": 9}, runs[0][2]), ("MC_BigArith", {"LB": 5, "N": 1200, "K": 11}, runs[0][2]),
+                 ("MC_BigAnsEquiv", {"W": 2, "S": 8, "LB": 3, "MaxBulk": 1, "MaxInit": 5}, ["Queries", "Steps", "Imports"]),
+                 ("MC_BigAnsEquiv", {"W": 4, "S": 8, "LB": 3, "MaxBulk": 1, "MaxInit": 2}, ["Queries", "Steps", "Imports"]),
+                 ("MC_BigRangeEquiv", {"W": 2, "S": 4, "LB": 2, "MaxData": 3, "MaxSitN": 2}, ["EncQueries", "EncSteps", "DecAll"]),
+                 ("MC_BigRangeEquiv", {"W": 3, "S": 6, "LB": 2, "MaxData": 1, "MaxSitN": 1}, ["EncQueries", "EncSteps", "DecAll"])]
+    for (module, consts, invs) in runs:
+        st = ctx.tlc(module, consts, invariants=invs, workers=12, timeout=3000, label=module)
+        if st["spec_violation"]:
+            # an inconsistency between two of our own specifications: a defect of the machinery, not of the library
+            raise core.ToolError("%s: %s fails with %s\n%s" % (module, st["spec_violation"], consts, st.get("counterexample", "")))
+        ctx.classes["big_equivalence_states"] = ctx.classes.get("big_equivalence_states", 0) + st.get("distinct", 0)
+
+
 @prop("C06")
 def c06(ctx):
+    big_equiv(ctx)
     ans_traces(ctx, exact=True, abstract=False)
     range_traces(ctx, exact=True)
     range_steered(ctx, exact=True)
@@ -682,6 +708,25 @@ def selftest():
     open(base + ".bad4.ndjson", "w").write("\n".join(json.dumps(e) for e in bad) + "\n")
     if validate("AbsAns", base + ".bad4.ndjson", {}, ["Report"]):
         failures.append("abstract trace with a corrupted popped symbol was ACCEPTED")
+    # (e) limb-arithmetic validation at the default preset u32/u64: the unmodified trace is accepted, one flipped bit in a
+    #     64-bit state or in a 24-bit cumulative, or one dropped event, is rejected
+    ctx.vh("drive_ans", extra=["--w", "32", "--s", "64", "--precs", "1,8,12,16,24,32", "--n", "700", "--trace", base + "32"])
+    core.limbify(base + "32.exact.ndjson", base + "32.big.ndjson", 12)
+    big = [json.loads(l) for l in open(base + "32.big.ndjson")]
+    consts = {"W": 32, "S": 64, "LB": 12}
+    if not validate("TraceBigAns", base + "32.big.ndjson", consts, ["StateInv"]):
+        failures.append("unmodified u32/u64 limb trace rejected")
+    encs = [i for i, e in enumerate(big) if e["ev"] == "enc" and len(e["state"]) >= 5 and e["c"]]
+    j = encs[len(encs) // 2]
+    for what, mut in (("state", lambda e: e["state"].__setitem__(4, e["state"][4] ^ 1)), ("cumulative", lambda e: e["c"].__setitem__(0, e["c"][0] ^ 1))):
+        bad = json.loads(json.dumps(big)); mut(bad[j])
+        open(base + "32.bad.ndjson", "w").write("\n".join(json.dumps(e) for e in bad) + "\n")
+        if validate("TraceBigAns", base + "32.bad.ndjson", consts, ["StateInv"]):
+            failures.append("u32/u64 limb trace with one flipped bit in a %s was ACCEPTED" % what)
+    bad = big[:j] + big[j + 1:]
+    open(base + "32.bad.ndjson", "w").write("\n".join(json.dumps(e) for e in bad) + "\n")
+    if validate("TraceBigAns", base + "32.bad.ndjson", consts, ["StateInv"]):
+        failures.append("u32/u64 limb trace with one dropped event was ACCEPTED")
     # (d) corrupted expectation in a replay case
     cases = os.path.join(ctx.work, "st_cases.ndjson")
     ctx.tlc("MC_Ans", {"W": 2, "S": 4, "MaxInit": 2, "MaxBulk": 1}, invariants=["TypeInv", "Emit"], constraint="Bound", emit_to=cases)
